@@ -81,6 +81,8 @@ class TextualRepository(Repository):
             self.__positional_to_delimited_field(f) for f in self._fields
         ]
         values = [v.strip() for v in line.split(delimiter)]
+        for field in fields:
+            field.value = None
         for field, value in zip(fields, values):
             field.read(value)
         return self.values
